@@ -55,8 +55,7 @@ Qed.
 
 (* ------------------------------------------------------------------ with the flags off the guard is void *)
 Definition context_flags_off (q : rquirks) : Prop :=
-  q_macro_opaque q = false /\ q_test_attr_substring q = false /\ q_cfg_test_literal q = false /\
-  q_attr_stop_at_comment q = false.
+  q_macro_opaque q = false /\ q_test_attr_substring q = false /\ q_cfg_test_literal q = false.
 
 Lemma existsb_rev {A} (f : A -> bool) l : existsb f (rev l) = existsb f l.
 Proof.
@@ -64,25 +63,45 @@ Proof.
   rewrite orb_false_r. apply orb_comm.
 Qed.
 
-Lemma sib_walk_semantic q needle sem l : q_attr_stop_at_comment q = false ->
-  sib_walk q (attr_hit needle sem false) l = has_attr sem l.
+(* the scan passes over attributes and comments: whichever way q_attr_stop_at_comment is set, because the source's
+   own table (_ATTRIBUTE_RUN_TYPES) names them *)
+Lemma run_types_ok q :
+  smem "attribute_item" (run_types q test_attr_run_types) = true /\ smem "line_comment" (run_types q test_attr_run_types) = true /\
+  smem "attribute_item" (run_types q cfg_attr_run_types) = true /\ smem "line_comment" (run_types q cfg_attr_run_types) = true.
+Proof. unfold run_types. destruct (q_attr_stop_at_comment q); repeat split. Qed.
+
+Lemma sib_walk_semantic run needle sem l :
+  smem "attribute_item" run = true -> smem "line_comment" run = true ->
+  sib_walk run "attribute_item" (attr_hit needle sem false) l = has_attr sem l.
 Proof.
-  intros HC. unfold has_attr. induction l as [|[t|] r IH]; [reflexivity| |].
-  - cbn [sib_walk existsb attr_hit]. rewrite IH. now destruct (sem t).
-  - cbn [sib_walk existsb]. rewrite HC. exact IH.
+  intros HA HC. unfold has_attr. induction l as [|[t|] r IH]; [reflexivity| |].
+  - cbn [sib_walk existsb attr_hit sib_type]. rewrite HA, IH. cbn [String.eqb Ascii.eqb Bool.eqb andb]. now destruct (sem t).
+  - cbn [sib_walk existsb sib_type]. rewrite HC. cbn [String.eqb Ascii.eqb Bool.eqb andb orb]. exact IH.
 Qed.
 
 Lemma gok_attrs q pre :
-  q_test_attr_substring q = false -> q_cfg_test_literal q = false -> q_attr_stop_at_comment q = false ->
-  Bool.eqb (sib_walk q (attr_hit test_attr_needle attr_is_test_fn (q_test_attr_substring q)) (rev pre)) (fn_is_test pre) = true /\
-  Bool.eqb (sib_walk q (attr_hit cfg_attr_needle attr_is_cfg_test (q_cfg_test_literal q)) (rev pre)) (mod_is_test pre) = true.
+  q_test_attr_substring q = false -> q_cfg_test_literal q = false ->
+  Bool.eqb (sib_walk (run_types q test_attr_run_types) test_attr_sibling_type
+                     (attr_hit test_attr_needle attr_is_test_fn (q_test_attr_substring q)) (rev pre)) (fn_is_test pre) = true /\
+  Bool.eqb (sib_walk (run_types q cfg_attr_run_types) cfg_attr_sibling_type
+                     (attr_hit cfg_attr_needle attr_is_cfg_test (q_cfg_test_literal q)) (rev pre)) (mod_is_test pre) = true.
 Proof.
-  intros H1 H2 H3. rewrite H1, H2, !(sib_walk_semantic q _ _ _ H3).
+  intros H1 H2. destruct (run_types_ok q) as (A1 & C1 & A2 & C2). rewrite H1, H2.
+  change test_attr_sibling_type with "attribute_item". change cfg_attr_sibling_type with "attribute_item".
+  rewrite (sib_walk_semantic _ _ _ _ A1 C1), (sib_walk_semantic _ _ _ _ A2 C2).
   unfold fn_is_test, mod_is_test, has_attr. rewrite !existsb_rev. split; apply eqb_reflx.
 Qed.
 
-Lemma classes_documented q : q_net_bare_type q = false -> blocking_classes_of q = spec_blocking_classes.
-Proof. intros H. unfold blocking_classes_of. rewrite H. reflexivity. Qed.
+(* the code's call-path table classifies as documented, with or without the NetType::method patch *)
+Lemma classes_documented q path :
+  classify_path (blocking_classes_of q) path = classify_path spec_blocking_classes path.
+Proof.
+  unfold blocking_classes_of. destruct (q_net_bare_type q); [reflexivity|].
+  set (t := map _ blocking_classes). vm_compute in t. subst t.
+  set (u := spec_blocking_classes). vm_compute in u. subst u.
+  cbn [classify_path existsb].
+  repeat match goal with |- context [pat_matches path ?p] => destruct (pat_matches path p) end; reflexivity.
+Qed.
 
 Lemma ostr_eqb_refl a : ostr_eqb a a = true.
 Proof. destruct a; cbn [ostr_eqb]; [apply String.eqb_refl|reflexivity]. Qed.
@@ -91,23 +110,23 @@ Definition linter_flags_off (w : linter) (q : rquirks) : Prop :=
   match w with
   | LUnwrap => q_chain_start_line q = false
   | LClone => q_chain_start_line q = false /\ q_for_header_in_loop q = false
-  | LBlocking => q_net_bare_type q = false
+  | LBlocking => True
   end.
 
 Lemma guard_void w q : context_flags_off q -> linter_flags_off w q ->
   forall n g, g_macro g = false -> (w = LClone -> g_forhdr g = false) -> rguard w q g n = true.
 Proof.
-  intros (HM & HS & HC & HCo) HW.
+  intros (HM & HS & HC) HW.
   induction n as [k cs IH] using node_ind'. intros g GM GF.
   unfold rguard. rewrite guard_eq. apply andb_true_iff. split.
   - unfold gok. rewrite GM. cbn [negb orb andb].
-    destruct (gok_attrs q (match k with KFn pre _ _ | KMod pre => pre | _ => [] end) HS HC HCo) as [A1 A2].
+    destruct (gok_attrs q (match k with KFn pre _ _ | KMod pre => pre | _ => [] end) HS HC) as [A1 A2].
     destruct k as [pre|pre a nm| |b| |x| |nm| |sl sc ml name|sl sc path|p| |lk pat| | |nm]; try reflexivity; try assumption.
     + destruct w; cbn [linter_flags_off] in HW.
       * now rewrite HW.
       * destruct HW as [HW1 HW2]. rewrite HW1, (GF eq_refl). reflexivity.
       * reflexivity.
-    + destruct w; try reflexivity. cbn [linter_flags_off] in HW. rewrite (classes_documented q HW). apply ostr_eqb_refl.
+    + destruct w; try reflexivity. rewrite (classes_documented q path). apply ostr_eqb_refl.
   - assert (GM' : forall i, g_macro (gpush q g k i) = false).
     { intros i. cbn [gpush g_macro]. now rewrite GM, HM. }
     assert (GF' : forall i, w = LClone -> g_forhdr (gpush q g k i) = false).
@@ -137,16 +156,16 @@ Proof.
   exact (file_guard_void LClone q file HC (conj HL HF)).
 Qed.
 
-Theorem blocking_exact q c file : context_flags_off q -> q_net_bare_type q = false ->
+Theorem blocking_exact q c file : context_flags_off q ->
   blocking_report q c file = spec_blocking_report c file.
-Proof. intros HC HN. apply blocking_guarded. exact (file_guard_void LBlocking q file HC HN). Qed.
+Proof. intros HC. apply blocking_guarded. exact (file_guard_void LBlocking q file HC I). Qed.
 
 Theorem report_exact q c file : context_flags_off q -> q_chain_start_line q = false ->
-  q_for_header_in_loop q = false -> q_clone_first_pattern q = false -> q_net_bare_type q = false ->
+  q_for_header_in_loop q = false -> q_clone_first_pattern q = false ->
   report q c file = spec_report c file.
 Proof.
-  intros HC HL HF HP HN. unfold report, spec_report.
-  now rewrite (unwrap_exact q c file HC HL), (clone_exact q c file HC HL HF HP), (blocking_exact q c file HC HN).
+  intros HC HL HF HP. unfold report, spec_report.
+  now rewrite (unwrap_exact q c file HC HL), (clone_exact q c file HC HL HF HP), (blocking_exact q c file HC).
 Qed.
 
 (* ------------------------------------------------------------------ switches *)
@@ -271,7 +290,8 @@ Qed.
 (* ------------------------------------------------------------------ documented tables and options *)
 Lemma documented_tables :
   blocking_fs_functions = fs_functions /\ blocking_net_types = net_types /\ async_wrapper_functions = wrapper_names /\
-  blocking_classes_of ideal = spec_blocking_classes /\
+  blocking_classes = spec_blocking_classes /\
+  test_attr_run_types = ["attribute_item"; "line_comment"; "block_comment"] /\ cfg_attr_run_types = test_attr_run_types /\
   map fst unwrap_cfg = ["enabled"; "allow_in_tests"; "allow_expect"] /\
   map fst clone_cfg = ["enabled"; "allow_in_tests"; "detect_clone_in_loop"; "detect_clone_chain"; "detect_unnecessary_clone"] /\
   map fst blocking_cfg = ["enabled"; "allow_in_tests"; "detect_fs_in_async"; "detect_sleep_in_async"; "detect_net_in_async"] /\
